@@ -142,6 +142,7 @@ func (m *LeaseManager) doAcquire(ctx context.Context, resourceID string) error {
 	if err != nil {
 		return fmt.Errorf("get session: %w", err)
 	}
+	verifGate("lease.afterSession", m.brokerID+"|"+resourceID)
 
 	leaseKey := m.leaseKey(resourceID)
 
@@ -153,6 +154,7 @@ func (m *LeaseManager) doAcquire(ctx context.Context, resourceID string) error {
 		Then(clientv3.OpPut(leaseKey, m.brokerID, clientv3.WithLease(session.Lease()))).
 		Else(clientv3.OpGet(leaseKey)).
 		Commit()
+	verifGate("lease.afterTxn", m.brokerID+"|"+resourceID)
 
 	if err != nil {
 		return fmt.Errorf("%s lease txn: %w", m.resourceKind, err)
@@ -192,6 +194,7 @@ func (m *LeaseManager) reacquire(ctx context.Context, resourceID, leaseKey strin
 		If(clientv3.Compare(clientv3.Value(leaseKey), "=", m.brokerID)).
 		Then(clientv3.OpPut(leaseKey, m.brokerID, clientv3.WithLease(session.Lease()))).
 		Commit()
+	verifGate("lease.afterReacquire", m.brokerID+"|"+resourceID)
 	if err != nil {
 		return fmt.Errorf("reacquire %s lease: %w", m.resourceKind, err)
 	}
@@ -256,6 +259,7 @@ func (m *LeaseManager) getOrCreateSession(ctx context.Context) (*concurrency.Ses
 
 func (m *LeaseManager) monitorSession(session *concurrency.Session) {
 	<-session.Done()
+	verifGate("lease.monitor", fmt.Sprintf("%s|%x", m.brokerID, int64(session.Lease())))
 
 	m.mu.Lock()
 	if m.session == session {
@@ -300,6 +304,7 @@ func (m *LeaseManager) Release(resourceID string) {
 	m.mu.Unlock()
 
 	if ok {
+		verifGate("lease.release", m.brokerID+"|"+resourceID)
 		leaseKey := m.leaseKey(resourceID)
 		ctx, cancel := context.WithTimeout(context.Background(), 5*time.Second)
 		defer cancel()
